@@ -47,7 +47,12 @@ CLAIMS = {
                      "get_char to the standard's preprocessing pass, reconsume, temporary buffer, appropriate end tag, end-of-file "
                      "clauses; obligations discharged per state by symbolic execution of both machines. NOT covered (runs reaching them "
                      "are outside the theorem): the 8 attribute states, markup declaration open, the comment states, the "
-                     "DOCTYPE states, CDATA sections, character references; script pauses and encoding suspensions.",
+                     "DOCTYPE states, CDATA sections, character references; script pauses and encoding suspensions. "
+                     "C01_default_mode_refines_whatwg_partial transports the theorem to the REAL default configuration (exact_errors = "
+                     "false, chunked BufferQueue, bulk reads, SIMD scan; Inst/InstWhatwgDefault.v): with fuel >= html_fuel |text| the "
+                     "default-mode run returns normally and its observation equals the WHATWG tokens, under the same covered-states "
+                     "hypothesis on the reference run (C01_observation_factors_through_obs: the C01 observation is a function of the "
+                     "observation of the C03/C08 default-mode simulation).",
                 note=TOK_NOTE + " The golden table is an audited snapshot, not an independent transcription.",
                 tech="source-to-Coq translation + reflective Coq checks + golden-table differential + independent WHATWG tokenizer oracle"),
     "C03": dict(cat="proof", ref="DESIGN.md section 5 C03",
@@ -187,10 +192,16 @@ CLAIMS = {
                      "not CR/LF, DiscardWs only on a peeked character, eat patterns free of line breaks, reconsume only into get_char "
                      "states, eat states entered with empty temp_buf, tags emitted with empty temp_buf; eof_ok: EOF arms neither read "
                      "nor discard) and the hypothesis that entity-table keys contain no CR/LF, discharged for the pinned entity table. "
-                     "Earlier reflective facts kept (raw_discard_safe, bulk sets stop at line breaks, SIMD sets consistent). Still "
-                     "_partial / tested: exact_errors = false with bulk reads and the SIMD newline count (covered statically by "
-                     "sets_adequate / simd_consistent and differentially), chunked feeding (reduced to this theorem by the C03 chunk "
-                     "theorems, also for exact mode only), that the EOF token has k = |input| (needs termination), the Rust code vs the "
+                     "Earlier reflective facts kept (raw_discard_safe, bulk sets stop at line breaks, SIMD sets consistent). "
+                     "The law is also proved for the REAL default configuration (exact_errors = false, chunked BufferQueue, bulk reads, "
+                     "SIMD scan; Inst/InstLineDefault.v): C09_default_mode_line_numbers_match_source (every entry of the observation of "
+                     "the default-mode output - character runs merged, errors erased - for all inputs, fuel >= html_fuel |input|), "
+                     "C09_default_mode_line_numbers_of_tags_comments_doctypes_eof (literally every delivered token that is neither "
+                     "characters nor an error) and C09_default_mode_line_numbers_match_source_any_chunking (any non-empty chunking, "
+                     "sink that never pauses), by transport through the default-mode simulation of C03/C08 (TokIR/BulkSim.v) with "
+                     "the C04 fuel bound. Still _partial / tested: the line of the individual pieces of a character run and of the "
+                     "error tokens in default mode (only the merged run is covered), chunked feeding with a pausing sink, "
+                     "that the EOF token has k = |input| (needs termination), the Rust code vs the "
                      "interpreter (token-stream correspondence incl. line and consumed count), and the tree builder forwarding the "
                      "number to set_current_line. Per-token line numbers are still checked on the implementation against "
                      "1 + breaks(input consumed).",
